@@ -160,7 +160,8 @@ func (a *setvarFn) evaluateTxCollection(r plugintypes.RuleMetadata, tx plugintyp
 			val, err = strconv.Atoi(value[1:])
 			if err != nil {
 				// If the variable doesn't exist, we would need to raise an error. Otherwise, it should be the same value.
-				if strings.HasPrefix(value[1:], "tx.") {
+				// an undefined %{tx.key} expands to its own text, in whatever case the collection was written
+				if len(value) > 4 && strings.EqualFold(value[1:4], "tx.") {
 					tx.DebugLogger().Error().
 						Str("var_value", value).
 						Int("rule_id", r.ID()).
